@@ -265,6 +265,37 @@ def full_table_scenario(args):
     return bad
 
 
+def unnamed_scenario(args):
+    """the editor starts without a file name; text is appended and then written somewhere (a file, part of it, or a pipe).
+    Quitting or leaving the buffer may only succeed when some file on disk holds the whole text (printed with 1,$p, which
+    unlike :w cannot give the buffer a name)."""
+    vi, idx = args
+    R = rng('c02', 'unnamed', idx)
+    text = b''.join(b'line %d %c\n' % (j, 97 + R.randint(0, 25)) for j in range(R.randint(1, 5)))
+    acts = [R.choice([b'w !cat', b'w !true', b'1,1w !cat', b'w! !cat', b'w nf1', b'1,1w nf2', b'w! nf1', b'1,$w nf3', b'w', b'f', b'1s/^/z/', b'u', b'1,1w! nf1', b'w nf1\n1s/$/ more/'])
+            for _ in range(R.randint(1, 3))]
+    quit_cmd = R.choice([b'q', b'q', b'x', b'wq', b'e f1', b'e nf1'])
+    script = b'a\n' + text + b'.\n' + b''.join(a + b'\n' for a in acts) + b'ec ' + S(0) + b'\n1,$p\nec ' + S(1) + b'\n' + quit_cmd + b'\nec ' + S(2) + b'\n1,$p\nec ' + S(3) + b'\n'
+    r, d = common.run_ex(vi, script, files={'f1': b'other file\n'}, timeout=30, args=[])
+    disk = {x: common.readf(d, x) for x in os.listdir(d) if x != 'f1' and not x.startswith('.') and os.path.isfile(os.path.join(d, x))}
+    common.rmcase(d)
+    wit = {'index': idx, 'script': script}
+    cur = seg(r.out, 0, 1)
+    if r.timed_out or common.san_report(r) or cur is None:
+        return None, wit
+    held = cur == b'' or any(v == cur for v in disk.values())      # an empty unnamed buffer has nothing to lose
+    alive = S(2) in r.out
+    after = seg(r.out, 2, 3)
+    what = 'unnamed buffer, %s then :%s' % ([a.decode() for a in acts], quit_cmd.decode())
+    if held:
+        return 'ok-trivial', wit
+    if not alive:
+        return ('quit-discards', '%s: the editor exited although no file holds the text %r (files: %s)' % (what, common.show(cur, 60), sorted(disk))), wit
+    if after is not None and after != cur:
+        return ('switch-from-dirty', '%s: the buffer was left although no file holds its text %r' % (what, common.show(cur, 60))), wit
+    return 'ok', wit
+
+
 def run(tier, V):
     vi = build('plain')
     n = 400 if tier == 'quick' else 4000
@@ -288,11 +319,24 @@ def run(tier, V):
     for bad in pmap(full_table_scenario, [(vi, base + i) for i in range(nfull)]):
         for key, what, wit in bad:
             V.violation(key, what, wit)
-    cov = {'evaluations': checks + nw + 1 + nfull, 'distinct_nontrivial': dirty + nw + nfull, 'full_table_scenarios': nfull, 'histories': n, 'prefix_probes': checks, 'probes_with_a_dirty_buffer': dirty, 'saved_position_walks': nw,
+    nun = 300 if tier == 'quick' else 3000
+    un_ok = 0
+    for res_u, wit in pmap(unnamed_scenario, [(vi, base + i) for i in range(nun)]):
+        if res_u is None:
+            V.inconclusive += 1
+        elif isinstance(res_u, tuple):
+            V.violation(res_u[0], res_u[1], wit)
+        elif res_u == 'ok':
+            un_ok += 1
+    cov = {'evaluations': checks + nw + 1 + nfull + nun, 'unnamed_buffer_scenarios': nun, 'unnamed_refusals_or_saves_observed': un_ok, 'distinct_nontrivial': dirty + nw + nfull, 'full_table_scenarios': nfull, 'histories': n, 'prefix_probes': checks, 'probes_with_a_dirty_buffer': dirty, 'saved_position_walks': nw,
            'rule': ('%d random histories (modify, u, redo, w, w!, partial own-path writes, writes to other paths, e!, e, e!, e #, b N/+/-) over 2-4 files; EVERY prefix is run in a fresh process followed by a probe '
-                    '(list, dump of every open buffer, attempt :q / :e / :b without !, list).  oracle: dumped text vs the file now on disk.  + %d edit/save/undo/redo walks with a position model (both directions) + the 17-path LRU scenario + scenarios with 12-16 buffers open, dirty ones anywhere in the MRU table, then :q/:x/:wq. '
+                    '(list, dump of every open buffer, attempt :q / :e / :b without !, list).  oracle: dumped text vs the file now on disk.  + %d edit/save/undo/redo walks with a position model (both directions) + the 17-path LRU scenario + scenarios with 12-16 buffers open, dirty ones anywhere in the MRU table, then :q/:x/:wq + scenarios that start without a file name and write to pipes, parts, new names before :q/:x/:wq/:e. '
                     'non-trivial = a probe in which some open buffer differed from its file (the refusal path was exercised), or a walk.' % (n, nw)),
            'samples': [{'prefix': [c.decode() for c, _ in make_history(rng('c02', base), 3)][:8]}]}
     assumptions = ['no foreign writer: "content when last read or written" is what is on disk when the probe runs', 'aw/wa options off',
                    ':e! of an open path only switches (used by the probe to visit buffers without changing them)', ':e! on a non-existent path is left out (statement speaks of content when last read)']
     return cov, assumptions
+
+
+def REPLAY(w):
+    return run_history((build('plain'), w['index']))[0] if 'prefix' in w else 'scenario witness: see script'
